@@ -28,8 +28,8 @@ Wins0 == {<<-1, -1, "">>, <<1, 1, "">>, <<2, 0, "comma">>}
 \* "window" family: rows identified by position value
 WRows  == {Row([k |-> NumV(i)]) : i \in 0..3}
 Huge == 2000000000              \* stands for the largest LIMIT the parser accepts (rendered as 9223372036854775807)
-Limits == {0, 1, 2, 3, 5, Huge, Huge + 1}     \* Huge + 1 is rendered as 18446744073709551615, MySQL's idiom for "all the rest"
-Offs   == {-1, 0, 1, 2, 4, 6}
+Limits == {0, 1, 2, 3, 5, 8, 9, Huge, Huge + 1}     \* Huge + 1 is rendered as 18446744073709551615, MySQL's idiom for "all the rest"
+Offs   == {-1, 0, 1, 2, 4, 6, 8}
 WinsAll == {<<-1, -1, "">>} \cup {<<n, m, "">> : n \in Limits, m \in Offs}
                             \cup {<<n, m, "comma">> : n \in Limits, m \in Offs \ {-1}}
 WKeys == {<<>>, <<Key("k", TRUE)>>, <<Key("k", FALSE)>>}
@@ -52,6 +52,9 @@ Init ==
             cs = [fam |-> "union", doc |-> Doc1("t", tbl),
                   q |-> [k |-> "union", l |-> [BaseQ EXCEPT !.sel = <<Item(Col("k"), "")>>], r |-> [BaseQ EXCEPT !.sel = <<Item(Col("k"), "")>>, !.where = CmpE(">", Col("k"), LN(0))],
                          all |-> all, order |-> ks, limit |-> w[1], offset |-> w[2]]]
+       \* a table longer than ten rows: counts of two digits cut it (8, 9, 10 and 11 keep different rows)
+       \/ \E ks \in WKeys : \E w \in {<<10, -1, "">>, <<10, 1, "">>, <<8, 2, "comma">>, <<3, 8, "">>, <<9, 0, "comma">>, <<11, 10, "">>, <<2, 10, "comma">>} :
+            cs = [fam |-> "window", q |-> MkQ(<<Star>>, ks, w), doc |-> Doc1("t", [i \in 1..12 |-> Row([k |-> NumV((i * 5) % 12)])])]
        \/ \E tbl \in SeqsUpTo(WRows, MaxWin) : \E ks \in WKeys : \E w \in WinsAll :
             cs = [fam |-> "window", q |-> MkQ(<<Star>>, ks, w), doc |-> Doc1("t", tbl)]
     /\ EngineInit
